@@ -57,11 +57,13 @@ def h_dill(sym, kind="promotion", W=2, T=3, E=8, max_t=4, brackets=1, max_fail=0
         sym.check(len(set(cfgs)) == len(cfgs), "C16.config-suggested-twice", str(cfgs))
 
 
-def h_searcher_state(sym, kind="random", N=6, seed=7, allow_duplicates=False, finite=True):
+def h_searcher_state(sym, kind="random", N=6, seed=7, allow_duplicates=False, finite=True, small=False):
     """searcher level: get_state / clone_from_state"""
     from syne_tune.config_space import choice, randint, uniform
     from syne_tune.optimizer.schedulers.searchers.random_grid_searcher import RandomSearcher, GridSearcher
     cs = {"a": choice(["p", "q", "r"]), "n": randint(1, 3)} if finite else {"x": uniform(0, 1), "n": randint(1, 3)}
+    if small:
+        cs = {"a": choice(["p", "q"]), "n": randint(1, 2)}
 
     def mk():
         if kind == "random":
@@ -88,6 +90,7 @@ def h_searcher_state(sym, kind="random", N=6, seed=7, allow_duplicates=False, fi
         if c_o is not None:
             ev = sym.choice("ev%d" % i, 3)
             for s_ in (orig, other):
+                s_.register_pending(str(i), c_o)        # what the scheduler does for every suggestion
                 if ev == 0:
                     s_.on_trial_result(str(i), c_o, {"m": 1.0 * i}, update=True)
                 elif ev == 1:
@@ -116,9 +119,13 @@ def obligations(tier):
         obs.append(Ob("C16.a[dill,%s%s]" % (kind, ",B=2" if extra else ""), "props.c16:h_dill", p, bounds=dict(T=p["T"], E=E, W=p["W"], max_t=mt, snapshot_at="0..E"),
                       goals=("snapshot", "end", "snapshot-while-running") + (("snapshot-while-paused",) if kind in ("promotion", "sync") else ()),
                       split=(("snapshot_at", tuple(range(E + 1))),), budget_s=1800, may_be_incomplete=not quick))
+    N = 5 if quick else 6
+    # allow_duplicates=True: the exclusion list still carries the configurations of FAILED trials
+    obs.append(Ob("C16.b[get_state,random,seed=7,allow_duplicates]", "props.c16:h_searcher_state", dict(kind="random", N=N + 1, seed=7, allow_duplicates=True, small=True),
+                  bounds=dict(get_config_calls=N + 1, space="2 x 2 finite", allow_duplicates=True), goals=("snapshot", "end"),
+                  split=(("snapshot_at", tuple(range(N + 2))),), budget_s=900))
     for kind in ("random", "grid"):
         for seed in (31415927, 7):
-            N = 5 if quick else 6
             obs.append(Ob("C16.b[get_state,%s,seed=%d]" % (kind, seed), "props.c16:h_searcher_state", dict(kind=kind, N=N, seed=seed),
                           bounds=dict(get_config_calls=N, space="3 x 3 finite", snapshot_at="0..%d" % N), goals=("snapshot", "end"),
                           split=(("snapshot_at", tuple(range(N + 1))),), budget_s=900))
